@@ -26,8 +26,9 @@ def jobs(tier):
     M("canary.main.exit_status", defs=["-DC07_N_LT_256", "-DCANARY_main"], kind="canary", native=False)
     AX_ASSUMED = ["environment stubs of axlcomp_h.c (cmdline.c, emit.c, file.c functions: print no (Error) line)"]
 
-    def A(name, fn, entry, replace, cls="P", bound=None, cbmc=(), inputs=(), assumed=()):
+    def A(name, fn, entry, replace, cls="P", bound=None, cbmc=(), inputs=(), assumed=(), defs=(), kind="obligation"):
         js.append({"name": name, "src": "axlcomp_h.c", "entry": entry, "enforce": ["%s/c_%s" % (fn, fn)],
+                   "defs": list(defs), "kind": kind,
                    "replace": list(replace), "functions": [fn], "inputs": list(inputs), "cls": cls, "bound": bound,
                    "cbmc": ["--object-bits", "12"] + list(cbmc), "native": False, "timeout": 200,
                    "assumed": AX_ASSUMED + list(assumed)})
@@ -37,12 +38,15 @@ def jobs(tier):
        "compAXLmainFile/c_compAXLmainFile"], cls="B", bound="<= 3 files on the command line, <= 2^20 errors per file",
       cbmc=["--unwindset", ",".join("compFilesLoop%s.%d:6" % (W, i) for i in range(3)), "--unwinding-assertions"],
       inputs=["argc"], assumed=["c_compInit, c_compFini, c_compAXLmainFile (replaced, not enforced: print no (Error) line)"])
+    FL = [x for x in js if x["name"] == "axlcomp.compFilesLoop.returns_errors_printed"][0]
+    js.append(dict(FL, name="canary.axlcomp.compFilesLoop", kind="canary", defs=["-DCANARY_compFilesLoop"]))
     PH = ["compFileInit/c_compFileInit", "compFileFront/c_compFileFront", "compFileMiddle/c_compFileMiddle",
           "compFileSave/c_compFileSave", "compFileBack/c_compFileBack", "compFileFini/c_compFileFini",
           "compIsMoreAfterFront/c_compIsMoreAfterFront", "compFileLoadFoam/c_compFileLoadFoam"]
     PHA = ["phase contracts c_compFile* (replaced, not enforced): each phase may record errors; compFileFini prints all recorded"]
     A("axlcomp.compSourceFile.returns_errors_printed", "compSourceFile", "h_compSourceFile", PH, assumed=PHA)
     A("axlcomp.compSavedFile.returns_errors_printed", "compSavedFile", "h_compSavedFile", PH, assumed=PHA)
+    A("canary.axlcomp.compSourceFile", "compSourceFile", "h_compSourceFile", PH, defs=["-DCANARY_compOneFile"], kind="canary")
     A("axlcomp.compCmd.batch_returns_errors_printed", "compCmd", "h_compCmd",
       ["compFilesLoop/c_compFilesLoop", "compInit/c_compInit", "compFini/c_compFini", "compGLoop/c_compGLoop",
        "compSExprLoop/c_compSExprLoop", "compSEvalLoop/c_compSEvalLoop"], cls="B",
@@ -69,20 +73,25 @@ def jobs(tier):
     T("token.keyLongest.any_bytes", "keyLongest", strmax=2)
     T("sanity.token.keyLongest.first_byte_7bit.enumerated", "keyLongest", entry="h_keyLongest_enum7", strmax=8,
       extra=["h_keyLongest_enum7.0:130"])
-    def G(name, defs=(), kind="obligation", strmax=16):
+    def G(name, defs=(), kind="obligation", strmax=8, timeout=280):
         js.append({"name": name, "src": "genc_h.c", "entry": "h_gc0ValidIdInBuf",
                    "defs": ["-DC07_STRMAX=%d" % strmax] + list(defs), "kind": kind,
                    "functions": ["gc0ValidIdInBuf", "gc0InitSpecialChars", "genCSetIdLen"], "inputs": ["w0", "w1", "idlen", "g"],
                    "cls": "B", "bound": "strings of <= %d bytes (every byte value), identifier length limit <= 64" % strmax,
                    "link": ["strops.c"],
                    "cbmc": ["--sat-solver", "cadical", "--object-bits", "12", "--unwind", "20", "--unwindset",
-                            "gc0InitSpecialChars.0:130,gc0InitSpecialChars.1:40" + (",h_gc0ValidIdInBuf.0:%d" % (strmax + 2) if "-DH_BYTES_BELOW_127" in defs else ""),
+                            "gc0InitSpecialChars.0:260,gc0InitSpecialChars.1:40" + (",h_gc0ValidIdInBuf.0:%d" % (strmax + 2) if "-DH_BYTES_BELOW_127" in defs else ""),
                             "--unwinding-assertions"],
-                   "native": True, "timeout": 280, "assumed": ["fixed-capacity Buffer model in genc_h.c (bufNew/bufAdd1/bufPuts/bufBack1/bufPosition/bufChars)"]})
-    G("genc.gc0ValidIdInBuf.any_bytes")
-    G("sanity.genc.gc0ValidIdInBuf.bytes_below_127", defs=["-DH_BYTES_BELOW_127"])
-    G("canary.genc.gc0ValidIdInBuf", defs=["-DH_BYTES_BELOW_127", "-DCANARY_gc0ValidIdInBuf"], kind="canary")
+                   "native": True, "timeout": timeout, "assumed": ["fixed-capacity Buffer model in genc_h.c (bufNew/bufAdd1/bufPuts/bufBack1/bufPosition/bufChars)"]})
+    # since the fix of the mangler's tables this is a full (UNSAT) proof too: 4 bytes in quick, 8/16 in thorough
+    G("genc.gc0ValidIdInBuf.any_bytes", strmax=4)
+    # the passing class is a full (UNSAT) proof and grows quickly with the length: 4 bytes in quick, 8/16 in thorough
+    G("sanity.genc.gc0ValidIdInBuf.bytes_below_127", defs=["-DH_BYTES_BELOW_127"], strmax=4)
+    G("canary.genc.gc0ValidIdInBuf", defs=["-DH_BYTES_BELOW_127", "-DCANARY_gc0ValidIdInBuf"], kind="canary", strmax=4)
     if tier == "thorough":
+        G("genc.gc0ValidIdInBuf.any_bytes.8", strmax=8, timeout=3000)
+        G("genc.gc0ValidIdInBuf.any_bytes.16", strmax=16, timeout=3000)
+        G("sanity.genc.gc0ValidIdInBuf.bytes_below_127.8", defs=["-DH_BYTES_BELOW_127"], strmax=8, timeout=3000)
         T("token.keyLongest.any_bytes.16", "keyLongest", timeout=3000)
         T("sanity.token.keyLongest.first_byte_7bit.16", "keyLongest", defs=["-DH_FIRST_BYTE_ASCII"], timeout=3000)
     return js
